@@ -5,6 +5,7 @@ import TnVerif.Model.Arith
 import TnVerif.Model.Format
 import TnVerif.Model.Index
 import TnVerif.Model.Assign
+import TnVerif.Model.Tools
 /-
   Line-protocol driver (DESIGN §2.6).  One request per line on stdin, one answer per line on
   stdout.  Tokens are separated by blanks; numbers are integers or `p/q`.
@@ -221,6 +222,37 @@ def run (cmd : String) : PM String := do
       match t.setitem key (.tensor v) with
       | .error e => return "err " ++ showErr e
       | .ok r => return "ok " ++ showTensor r
+  | "dot" => do let t ← pTensor; let u ← pTensor; return "ok S " ++ showQ (t.dot u)
+  | "sumkeep" => do
+      let bits ← pNatList; let t ← pTensor
+      return "ok " ++ showTensor (t.sumKeep (bits.map (· != 0)))
+  | "sum" => do
+      let bits ← pNatList; let t ← pTensor
+      match t.sum (bits.map (· != 0)) with
+      | .error e => return "err " ++ showErr e
+      | .ok (.inl r) => return "ok " ++ showTensor r
+      | .ok (.inr x) => return "ok S " ++ showQ x
+  | "flip" => do
+      let bits ← pNatList; let t ← pTensor
+      return "ok " ++ showTensor (t.flip (bits.map (· != 0)))
+  | "cumsum" => do
+      let bits ← pNatList; let t ← pTensor
+      return "ok " ++ showTensor (t.cumsum (bits.map (· != 0)))
+  | "pad0" => do
+      let sizes ← pIntList; let t ← pTensor
+      return "ok " ++ showTensor (t.pad0 (sizes.map fun z => if z < 0 then none else some z.toNat))
+  | "ttm" => do
+      let n ← pNat
+      let mut maps : Array (Option (Nat × (Nat → Nat → Q))) := #[]
+      for _ in [0:n] do
+        let k ← next
+        if k == "-" then maps := maps.push none
+        else
+          let r ← pNat; let c ← pNat
+          let a ← pArr (r * c)
+          maps := maps.push (some (r, arr2 a r c))
+      let t ← pTensor
+      return "ok " ++ showTensor (t.ttm maps.toList)
   | _ => throw s!"unknown command {cmd}"
 
 def handle (line : String) : String :=
